@@ -92,14 +92,20 @@ pub fn replay_case<K: Kern<D>, const D: usize>(tr: &mut Tracer, evs: &[Value]) {
             "Construct" => {
                 let a = &e["args"];
                 let input: Vec<VIn> = a["input"].as_array().unwrap().iter().map(vin).collect();
-                if let Some(dt) = op_construct::<K, D>(
+                tr.dkey = a["dkey"].as_str().unwrap_or("").to_string();
+                if !tr.dkey.is_empty() {
+                    tr.dkey.push_str("");
+                }
+                let built = op_construct::<K, D>(
                     tr,
                     obj as usize,
                     ctor(a["ctor"].as_str().unwrap_or("")),
                     guarantee(a["g"].as_str().unwrap_or("")),
                     opts(a["opts"].as_str().unwrap_or("")),
                     &input,
-                ) {
+                );
+                tr.dkey.clear();
+                if let Some(dt) = built {
                     objs.insert(obj, dt);
                 }
             }
